@@ -26,7 +26,8 @@ M_MB == << MD("m1", <<"x">>, {"seq", "par"}, { G("X", <<Par("x")>>) }, {}, 1),
            MD("m2", <<"x", "y">>, {"seq"}, { G("m1", <<Qb("q", Par("y"))>>) }, { OSub(Par("y")) }, 1),
            \* a register parameter indexed by another parameter
            MD("m3", <<"r", "i">>, {"seq"}, { G("X", <<QbP("r", Par("i"))>>), G("X", <<QbP("r", I0)>>) }, {}, 1) >>
-T_MB == { G("X", <<QI("q", 0)>>), G("m1", <<QI("q", 1)>>), G("m2", <<QI("q", 2), Let("a")>>), G("m3", <<RegA("q"), I2>>) }
+T_MB == { G("X", <<QI("q", 0)>>), G("m1", <<QI("q", 1)>>), G("m2", <<QI("q", 2), Let("a")>>), G("m3", <<RegA("q"), I2>>),
+          G("m3", <<RegA("q"), I0>>), G("m2", <<QI("q", 1), I0>>) }         \* arguments whose value is zero
 O_MB == { OSeq, OPar, OLoop(Let("b"), FALSE), OLoop(I2, TRUE), OSub(I1), OSub(I2) }
 
 \* (C) three levels of macro calls; the outer macros go on using their OWN parameters after the inner call returns,
@@ -85,7 +86,7 @@ H_X == { Hdr(<<DLet("a", I1), DLet("n", I2)>>, <<DReg("q", I3), DSlice("r", "q",
          Hdr(<<DLet("a", I1), DLet("n", I2)>>, <<DReg("q", I3), DSlice("w", "q", Let("a"), None, None), DSlice("r", "w", I0, I1, None)>>, <<>>, ExactGates) }
 M_X == << MD("m1", <<"x">>, {"seq"}, { G("X", <<Par("x")>>), G("X", <<QI("r", 0)>>) }, { OSub(I1), OLoop(Let("n"), FALSE) }, 1),
           MD("m2", <<"x", "y">>, {"seq", "par"}, { G("m1", <<Par("x")>>), G("R", <<Par("x"), Par("y")>>) }, { OSub(Par("y")) }, 1) >>
-T_X == { G("X", <<QI("r", 0)>>), G("m1", <<Qb("q", Let("a"))>>), G("m2", <<QI("q", 2), Let("n")>>),
+T_X == { G("X", <<QI("r", 0)>>), G("m1", <<Qb("q", Let("a"))>>), G("m2", <<QI("q", 2), Let("n")>>), G("m2", <<QI("q", 1), I0>>),
          G("prepare_all", <<>>), G("measure_all", <<>>) }
 \* macros whose body is a single loop / parallel block / call, called directly inside blocks
 M_XP == << MD("m1", <<"x">>, {"seq", "par"}, { G("X", <<Par("x")>>) }, { OLoop(Let("n"), FALSE), OPar }, 2),
@@ -96,7 +97,11 @@ O_XP == { OSeq, OPar }
 M_XC == << MD("kick", <<"q">>, {"seq"}, { G("X", <<QbP("q", I0)>>) }, { OSub(I1) }, 2) >>
 T_XC == { G("X", <<QI("q", 0)>>), G("X", <<Qb("q", Let("a"))>>), G("kick", <<RegA("r")>>), G("kick", <<RegA("q")>>) }
 O_XC == { OSeq, OSub(I1) }
-O_X == { OSeq, OPar, OLoop(Let("n"), FALSE), OSub(I1), OSub(Let("n")) }
+\* a called macro whose body nests blocks of the SAME type directly (builder route only), with parameter-free parts
+M_XF == << MD("m1", <<"x">>, {"seq", "par"}, { G("X", <<QI("q", 0)>>), G("X", <<Par("x")>>) }, { OSeqAny, OParAny }, 3) >>
+T_XF == { G("m1", <<QI("q", 1)>>), G("X", <<QI("q", 2)>>) }
+O_XF == { OSeq }
+O_X == { OSeq, OPar, OLoop(Let("n"), FALSE), OLoop(Let("a"), FALSE), OSub(I1), OSub(Let("n")) }
 
 \* ---------------------------------------------------------------- C07: colliding names (lexical scoping)
 \* let a, register q, alias r  versus macro parameters a, q, r; the same statement text in two scopes
@@ -123,6 +128,7 @@ M_E1 == << MD("m", <<"x">>, {"seq"}, { G("X", <<Par("x")>>) }, { OSub(I1) }, 2) 
 M_E2 == << MD("p", <<"t">>, {"seq"}, { G("X", <<QI("q", 0)>>) }, {}, 1),
            MD("m", <<"x">>, {"seq"}, { G("X", <<Par("x")>>) }, { OSub(I1), OLoop(Let("t"), FALSE) }, 3) >>
 O_E0 == { OSeq, OLoop(Let("t"), FALSE), OSub(I1) }
+H_E1 == { Hdr(<<DLet("z", I0), DLet("t", I1)>>, <<DReg("q", I2)>>, <<>>, ExactGates) }      \* the constant t is 1 in the file
 T_E == { G("prepare_all", <<>>), G("measure_all", <<>>), G("X", <<QI("q", 0)>>) }
 T_E1 == T_E \cup { G("m", <<QI("q", 1)>>) }
 O_E == { OSeq, OPar, OLoop(I0, FALSE), OLoop(I2, FALSE), OLoop(Let("t"), FALSE), OLoop(I1, FALSE), OSub(I1) }
@@ -208,7 +214,7 @@ T_R == { G("g", <<QI("q", 0), F15>>), G("g", <<QAl("s"), Let("y")>>), G("h", <<Q
          G("m", <<QI("q", 2), I2>>), G("k", <<FNEG, INEG, FBIG>>),
          \* an integral float next to the equal integer (the loop count 3 of O_R): 3.0 and 3 must stay different spellings
          G("g", <<QI("q", 1), F30>>) }
-O_R == { OSeq, OPar, OLoop(Let("a"), FALSE), OLoop(I3, TRUE), OSub(I1), OSub(NumI(5)), OSub(Let("n")) }
+O_R == { OSeq, OPar, OLoop(Let("a"), FALSE), OLoop(I3, TRUE), OSub(I1), OSub(NumI(5)), OSub(Let("n")), OSub(I0) }
 
 \* ---------------------------------------------------------------- C16: executable texts with loop counts at the edge
 \* (gate definitions come from the pulse fixture harness/pulses/vpulses.py through a usepulses statement)
@@ -266,7 +272,11 @@ T_V == { G("X", <<QI("q", 0)>>), G("X", <<QI("q", 2)>>), G("X", <<QI("q", 3)>>),
          G("X", <<Qb("q", Let("k"))>>), G("X", <<Qb("q", Let("a"))>>), G("m", <<QI("q", 2), I3>>), G("m", <<QI("q", 0), I1>>),
          G("R", <<QI("q", 0), F15>>), G("X", <<Qb("a", I0)>>), G("X", <<Let("u")>>), G("U", <<QI("q", 0)>>),
          G("X", <<QI("q", 0), QI("q", 1)>>), G("R", <<QI("q", 1), Let("a")>>),
-         G("X", <<QI("r", 1)>>), G("X", <<QI("r", 2)>>), G("w", <<RegA("r")>>), G("w", <<RegA("q")>>), G("b", <<>>) }
+         G("X", <<QI("r", 1)>>), G("X", <<QI("r", 2)>>), G("w", <<RegA("r")>>), G("w", <<RegA("q")>>), G("b", <<>>),
+         \* an undefined identifier (it used to be a key of the builder's own block-context flags)
+         G("R", <<QI("q", 0), Let("__in_context_subcircuit__")>>),
+         \* macro arguments of the wrong kind: a number where m passes its x on as a qubit, a qubit where p is a number
+         G("m", <<I1, I1>>), G("m", <<QI("q", 0), QI("q", 1)>>), G("m", <<QI("q", 0), F15>>), G("w", <<QI("q", 0)>>) }
 O_V == { OSub(I1) }
 
 \* ---------------------------------------------------------------- C06: alias chains (two links over a register of size 3..4)
